@@ -667,7 +667,20 @@ func (p *prover) lin0(v ssa.Value) Lin {
 		return p.opaque(v)
 	case *ssa.UnOp:
 		if x.Op == token.SUB {
-			return p.lin(x.X).neg()
+			// -x is the mathematical negation unless x is the most negative value of its type;
+			// that has to be excluded by what is known about x (a parsed number can be anything)
+			a := p.lin(x.X)
+			if bits, unsigned, ok := intSize(p.w, x.Type()); ok && !unsigned {
+				minPlus1 := new(big.Rat).SetInt(new(big.Int).Neg(new(big.Int).Sub(new(big.Int).Lsh(big.NewInt(1), uint(bits-1)), big.NewInt(1))))
+				bound := newLin()
+				bound.K.Set(minPlus1)
+				if p.provable(Fact{a.sub(bound), ""}) {
+					return a.neg()
+				}
+				r := p.opaque(v)
+				return r
+			}
+			return p.opaque(v)
 		}
 		return p.opaque(v)
 	case *ssa.Phi:
